@@ -198,10 +198,9 @@ def run_surface(c):
 
 
 # ----------------------------------------------------------------------------------------
-def run_drift(c):
-    from EasyFEA import Simulations, AlgoType
+def build_mesh(c):
+    """structured mesh built by hand (no gmsh): nx x ny QUAD4 / TRI3 cells or nx x ny x nz HEXA8."""
     from EasyFEA.FEM import Mesh
-    # structured mesh built by hand (no gmsh): nx x ny QUAD4 / TRI3 cells or nx x ny x nz HEXA8
     dim = c["dim"]
     nx, ny, nz = c["n"]
     L = c["L"]
@@ -223,7 +222,112 @@ def run_drift(c):
                          for k in range(nz) for j in range(ny) for i in range(nx)])
     et = getattr(ElemType, c["elemType"])
     g = GroupElemFactory.Create(et, conn, coords)
-    mesh = Mesh({et: g})
+    return Mesh({et: g}), dim, L
+
+
+def apply_ops(simu, ops):
+    """public setter sequence: ["algo", name, dt, alpha] | ["stress", type, nPoints, energyTol, consistent]"""
+    from EasyFEA import AlgoType
+    for op in ops:
+        if op[0] == "algo":
+            kw = {}
+            if op[1] in ("hht", "hht_newmark"):
+                kw["alpha"] = op[3]
+            simu.Solver_Set_Hyperbolic_Algorithm(op[2], algo=getattr(AlgoType, op[1]), **kw)
+        elif op[0] == "stress":
+            simu.Solver_Set_Stress(simu.StressType(op[1]), nPoints=op[2], energyTol=op[3], useConsistentTangent=op[4])
+        else:
+            raise ValueError(op)
+
+
+def run_simfd(c):
+    """assembled Newton matrix of Simulations.HyperElastic vs central differences of the assembled
+    residual F_e with respect to the step unknown u_{n+1}, after a sequence of public setters."""
+    from EasyFEA import Simulations
+    mesh, dim, L = build_mesh(c)
+    mat = make_law(c["law"], dim, c["params"], c.get("T1"), c.get("T2"))
+    mat.eta = c.get("eta", 0.0)
+    simu = Simulations.HyperElastic(mesh, mat, verbosity=False)
+    simu.rho = c["rho"]
+    try:
+        apply_ops(simu, c["ops"])
+    except AssertionError as ex:
+        return {"id": c["id"], "rejected": "setter: %s" % str(ex)[:120]}
+    pt = simu.problemType
+    n = mesh.Nn * dim
+    r = np.asarray(c["rand"], dtype=float)
+    take = lambda k: np.resize(r[k::4], n)
+    simu._Set_solutions(pt, take(0) * c["amp"], take(1) * 10 * c["amp"], take(2) * 10 * c["amp"])
+    u_np1 = simu._Get_u_n(pt) + take(3) * c["amp"]
+    out = {"id": c["id"], "algo": str(simu.algo), "stress": str(simu.stressType)}
+
+    def local(u):
+        simu._Simu__Solver_Set_Newton_Raphson_current_solution(u.copy())
+        res = simu.Construct_local_matrix_system(pt)
+        npts = simu._HyperElastic__nPts_e
+        return res, (None if npts is None else np.array(npts))
+    try:
+        res0, npts0 = local(u_np1)
+    except AssertionError as ex:
+        return {"id": c["id"], "rejected": "assembly: %s" % str(ex)[:120]}
+    coefK, coefC, coefM = simu._Solver_Get_K_C_M_coefs_for_time_scheme()
+    worst, ncols, skipped = 0.0, 0, 0
+    h = c["h"]
+    for g, (K_e, C_e, M_e, F_e) in res0.items():
+        A_e = coefK * K_e + coefM * M_e + (coefC * C_e if C_e is not None else 0.0)
+        asse = g.Get_assembly_e(dim)
+        elems = sorted(set(int(e) % g.Ne for e in c["elems"]))
+        for e in elems:
+            cols = sorted(set(int(j) % asse.shape[1] for j in c["cols"]))
+            fd = np.zeros((asse.shape[1], len(cols)))
+            ok = True
+            for q, j in enumerate(cols):
+                up, um = u_np1.copy(), u_np1.copy()
+                up[asse[e, j]] += h
+                um[asse[e, j]] -= h
+                (rp, np_p), (rm, np_m) = local(up), local(um)
+                if npts0 is not None and not (np.array_equal(np_p, npts0) and np.array_equal(np_m, npts0)):
+                    ok = False       # the adaptive rule switched inside the difference step: not differentiable there
+                    break
+                fd[:, q] = -(rp[g][3][e] - rm[g][3][e]) / (2 * h)
+            if not ok:
+                skipped += 1
+                continue
+            worst = max(worst, rel(A_e[e][:, cols], fd))
+            ncols += len(cols)
+    out["sim:A=-dF/du_np1"] = worst
+    out["columns"] = ncols
+    out["skipped_elements"] = skipped
+    out["nPts"] = None if npts0 is None else sorted(set(int(x) for x in npts0))
+    return out
+
+
+def run_quad(c):
+    """discrete-gradient identity of the strain-path quadrature stress at midpoint:
+    R_e . (u_{n+1} - u_n) = integral of W(u_{n+1}) - W(u_n), per number of points."""
+    g, X, dim, nPe = make_group(c["elemType"], c["A"])
+    u1 = displacement(X, dim, c["G"], c["pert"], c["amp"])
+    u0 = displacement(X, dim, c["G0"], c["pert"][::-1], c["amp"])
+    mat = make_law(c["law"], dim, c["params"], c.get("T1"), c.get("T2"))
+    mt = MatrixType.rigi
+    wJ = np.asarray(g.Get_weightedJacobian_e_pg(mt))
+    S = lambda u: HyperElasticState(g, u, mt)
+    dW = float((wJ * (np.asarray(mat.Compute_W(S(u1))) - np.asarray(mat.Compute_W(S(u0))))).sum())
+    W1, W0 = np.asarray(mat.Compute_W(S(u1))), np.asarray(mat.Compute_W(S(u0)))
+    # robust scale: the energy increment can be close to zero between two states of similar energy
+    scale = max(abs(dW), 0.1 * float((wJ * (np.abs(W1) + np.abs(W0))).sum()), 1e-30)
+    out = {"id": c["id"], "dW": dW, "scale": scale, "defect": {}, "wsum": {}}
+    for npts in c["nPoints"]:
+        _, R, _ = NL.TimeQuadratureStressTensor(mat, S(u0), S((u0 + u1) / 2), S(u1), 0.5, npts)
+        out["defect"][str(npts)] = abs(float(R[0] @ (u1 - u0)) - dW) / scale
+        nodes, weights = getattr(NL, "__clenshaw_curtis")(npts)
+        out["wsum"][str(npts)] = float(sum(weights))
+    return out
+
+
+def run_drift(c):
+    from EasyFEA import Simulations, AlgoType
+    mesh, dim, L = build_mesh(c)
     mat = make_law(c["law"], dim, c["params"], c.get("T1"), c.get("T2"))
     simu = Simulations.HyperElastic(mesh, mat, absTol=c["absTol"], relTol=1e-14, incTol=1e-14, maxIter=40, verbosity=False)
     simu.rho = c["rho"]
@@ -262,8 +366,9 @@ def main():
     req = json.load(sys.stdin)
     real_stdout = sys.stdout
     sys.stdout = open(os.devnull, "w")      # the Newton loop prints its convergence history
-    out = {"states": [], "fd": [], "surface": [], "drift": []}
-    for kind, fn in (("states", run_state), ("fd", run_fd), ("surface", run_surface), ("drift", run_drift)):
+    out = {"states": [], "fd": [], "surface": [], "drift": [], "simfd": [], "quad": []}
+    for kind, fn in (("states", run_state), ("fd", run_fd), ("surface", run_surface), ("drift", run_drift),
+                     ("simfd", run_simfd), ("quad", run_quad)):
         for c in req.get(kind, []):
             try:
                 out[kind].append(fn(c))
